@@ -120,7 +120,7 @@ def build(prop, extra_targets=()):
         core = lake_build(core_targets)
         props = None
         if core.ok:
-            props = lake_build([f"Props.{prop}", *extra_targets])
+            props = lake_build([*prop_modules(prop), *extra_targets])
         return core, props, ext_err
     finally:
         lock.close()
@@ -128,6 +128,11 @@ def build(prop, extra_targets=()):
 
 # --------------------------------------------------------------------------------------
 # audit
+
+
+def prop_modules(prop):
+    """Lean modules holding the property's theorems: Props/<prop>.lean and Props/<prop><Suffix>.lean."""
+    return [f"Props.{f.stem}" for f in sorted((LEAN / "Props").glob(f"{prop}*.lean"))]
 
 
 def theorems_of(prop):
@@ -201,7 +206,7 @@ def audit(prop):
     thms = theorems_of(prop)
     if not thms:
         raise Infra(f"no theorems found in Props/{prop}.lean")
-    src = f"import Props.{prop}\n" + "".join(f"#print axioms {t}\n" for t in thms)
+    src = "".join(f"import {m}\n" for m in prop_modules(prop)) + "".join(f"#print axioms {t}\n" for t in thms)
     tmp = LEAN / ".lake" / f"audit_{prop}.lean"
     tmp.write_text(src)
     rc, out = sh(["lake", "env", "lean", str(tmp)], cwd=str(LEAN), timeout=900)
@@ -358,7 +363,7 @@ class Ctx:
         cov = {
             "obligations": self.obligations,
             "discharged": self.discharged,
-            "checker_cmd": f"cd lean && lake build Props.{self.prop} && lake env lean .lake/audit_{self.prop}.lean  (#print axioms of every theorem)",
+            "checker_cmd": f"cd lean && lake build {" ".join(prop_modules(self.prop))} && lake env lean .lake/audit_{self.prop}.lean  (#print axioms of every theorem)",
             "trusted_base": TRUSTED_BASE,
             "theorems": self.theorems,
             "evaluations": self.evaluations,
